@@ -78,7 +78,7 @@ void SOR_forward(ParCSRMatrix* A, ParVector& x, const ParVector& y,
         start_off = end_off;
 
 //        x[i] = ((1.0 - omega)*x[i]) + (omega*((y[i] - row_sum) / diag));
-        x[i] = (x[i] + omega * (y[i] - x[i] - row_sum)) / diag;
+        x[i] = ((1.0 - omega)*x[i]) + (omega*((y[i] - row_sum) / diag));
     }
 }
 
